@@ -21,6 +21,11 @@ def r19_1(ctx):
         if n.get("k") == "Ctor" and n.get("variant") == "Some" and (n.get("ty") or "").endswith("Option<%sArrayLit>" % AST):
             somes.append(n)
     if not somes:
+        # `first().map(|x| ArrayLit { .. })`: the array literal itself marks the site
+        for n in idx.nodes:
+            if n.get("k") == "Struct" and n.get("adt") == AST + "ArrayLit":
+                somes.append(n)
+    if not somes:
         r.ob("emits construction site found", False, C.mloc(ee, ee), "no `Some(ArrayLit ..)` in the emits extractor")
         return r
     for n in somes:
